@@ -312,14 +312,6 @@ h!(c10_t_symbolic_n2, 7, {
     kani::cover!(unsafe { QV_N_COMMITS } >= 3, "one commit per batch plus the final flush");
     kani::cover!(sd, "shutting down");
 });
-h!(c10_t_symbolic_n3, 7, {
-    let (p, sd) = run::<3>();
-    kani::cover!(p[0] == 2 && p[1] == 1, "fully reversed arrival order");
-    kani::cover!(p[0] == 1 && p[1] == 2 && p[2] == 0, "first batch arrives last");
-    kani::cover!(commit_at(0) == 3, "all logical batches in one physical commit");
-    kani::cover!(unsafe { QV_N_COMMITS } >= 4, "one physical commit per logical batch");
-    kani::cover!(!sd, "not shutting down");
-});
 // twins
 h!(c10_xq_sched_twin, 7, {
     unsafe { QV_GROUP = 0b01; }
